@@ -7,7 +7,12 @@ def run(tier, seed):
     t0 = time.time()
     rep = Report('C12')
     d = scratch('c12')
-    jobs, not_under, info, cat = regcheck.jobs_for(d, os.environ.get('VF_ONLY'))
+    try:
+        jobs, not_under, info, cat = regcheck.jobs_for(d, os.environ.get('VF_ONLY'))
+    except regcheck.ExtractionBreak as e:
+        rep.undecide('extraction break: %s' % e)
+        write_evidence('C12', tier, seed, 'proof', {'evaluations': 0, 'distinct_nontrivial': 0, 'explanation': 'extraction break: %s' % e}, regcheck.TRUSTED_REG, time.time() - t0, 0)
+        return rep.finish()
     results = regcheck.run_jobs(d, jobs, tier)
     n_dis, per_fn, samples = regcheck.account(rep, results, info)
     cov = {'obligations': n_dis + len(rep.violations) + len(rep.undecided) + len(rep.known_hits), 'discharged': n_dis,
